@@ -241,6 +241,51 @@ def _eq(a, b):
     return Eq(a, b)
 
 
+class CompileReplicaOverlappingProducers(Target):
+    """Two REPLICATED producers whose references overlap textually (`stage0.temp:ref` is the tail of `stage0.mintemp:ref`):
+    copy i of the consumer consumes copy i of BOTH, whatever the order in which the replicated references are handed to
+    compile_component_replica (that order comes from the caller's bookkeeping, not from the workflow).  Concrete names
+    (BOUNDED: the symbolic target above excludes tail-overlaps through the recorded finding's carve-out)."""
+    prop = 'C03'
+    name = 'FlowIR.compile_component_replica[overlapping replicated producers]'
+    file = F
+    qualname = 'FlowIR.compile_component_replica'
+    inline_class = {'cls': (F, 'FlowIR')}
+    inline = {'FlowIR.compile_reference': (F, 'FlowIR.compile_reference', 'cls')}
+    compare_return = False
+    pure = ('FlowIR.ParseDataReferenceFull', 'FlowIR.compile_reference')
+    assumptions = ["BOUNDED: producers temp / mintemp (stage 0), consumer in stage 0 or 1, references spelled absolutely or "
+                   "relatively in the arguments, both orders of the replicated-references list, replica index 0..2"]
+
+    def setup(self, c):
+        cls = Obj('FlowIR', SpecialFolders=list(FlowIR.SpecialFolders), VariablePattern=FlowIR.VariablePattern) \
+            if c.mode == 'sym' else FlowIR
+        idx = c.choice('replica', 3)
+        spelling = c.one_of('spelling_in_arguments', ['absolute', 'relative'])
+        order = c.one_of('order_of_replicated_references', ['short-first', 'long-first'])
+        a, b = 'stage0.temp:ref', 'stage0.mintemp:ref'
+        ma, mb = (a, b) if spelling == 'absolute' else ('temp:ref', 'mintemp:ref')
+        comp = {'name': 'plot', 'stage': 0, 'command': {'executable': 'plot.sh', 'arguments': '--t %s --min %s --keep literal:ref' % (ma, mb)},
+                'references': [a, b], 'variables': {}, 'workflowAttributes': {}}
+        refs = [a, b] if order == 'short-first' else [b, a]
+        return State(args=[cls, comp, idx, 3, refs], idx=idx, cls=cls)
+
+    def real_function(self):
+        return FlowIR.compile_component_replica.__func__
+
+    def ensures(self, c, st, out):
+        if out.kind == 'raise':
+            return [('no-exception', False)]
+        r = out.value
+        i = st.idx
+        return [('copy-i-consumes-copy-i-of-both-producers-whatever-the-order-of-the-list',
+                 r['command']['arguments'] == '--t stage0.temp%d:ref --min stage0.mintemp%d:ref --keep literal:ref' % (i, i)
+                 and list(r['references']) == ['stage0.temp%d:ref' % i, 'stage0.mintemp%d:ref' % i])]
+
+    def cross_compare(self, *a):
+        return []
+
+
 class CompileAggregate(Target):
     """'an aggregating component consumes ALL copies, in index order': FlowIR.compile_component_aggregate on concrete
     component texts (bounded: the regular expression it builds from the reference needs concrete names)."""
@@ -437,5 +482,6 @@ from pyvc.spec import shared as _shared
 import contracts.C09 as _c09
 REFERENCE_PARSING = [_shared(_c09.CompileReference(), 'C03'), _shared(_c09.ParsePrint(), 'C03')]
 
-TARGETS = [ApplyReplicate(), CompileReplica(), CompileAggregate(), GraphEdges(), ConcreteReplicate()] + REFERENCE_PARSING
+TARGETS = [ApplyReplicate(), CompileReplica(), CompileReplicaOverlappingProducers(), CompileAggregate(), GraphEdges(),
+           ConcreteReplicate()] + REFERENCE_PARSING
 LEMMAS = []
